@@ -279,11 +279,16 @@ impl TxPool {
             .collect();
 
         for entry in removed {
-            let tx_hash = entry.transaction().hash();
-            debug!("remove_expired {} timestamp({})", tx_hash, entry.timestamp);
-            self.pool_map.remove_entry(&entry.proposal_short_id());
-            let reject = Reject::Expiry(entry.timestamp);
-            callbacks.call_reject(self, &entry, reject);
+            // younger descendants cannot stay: their input would be neither on chain nor in the pool
+            for entry in self
+                .pool_map
+                .remove_entry_and_descendants(&entry.proposal_short_id())
+            {
+                let tx_hash = entry.transaction().hash();
+                debug!("remove_expired {} timestamp({})", tx_hash, entry.timestamp);
+                let reject = Reject::Expiry(entry.timestamp);
+                callbacks.call_reject(self, &entry, reject);
+            }
         }
     }
 
